@@ -71,8 +71,9 @@ Lemma scan_while_bound p l n : scan_while p l = Some n -> 0 <= n < len l.
 Proof.
   revert n. induction l as [|c t IH]; intros n H; cbn [scan_while] in H; [discriminate|].
   rewrite len_cons. destruct (p c).
-  - destruct (scan_while p t) as [m|]; [|discriminate]. inversion H; subst. specialize (IH m eq_refl). lia.
-  - inversion H; subst. pose proof (len_nonneg t). lia.
+  - destruct (scan_while p t) as [m|]; [|discriminate].
+    assert (E : n = 1 + m) by congruence. specialize (IH m eq_refl). lia.
+  - assert (E : n = 0) by congruence. pose proof (len_nonneg t). lia.
 Qed.
 
 (* if p rejects the terminator the loop never runs off a well-formed buffer *)
